@@ -98,11 +98,23 @@ def run_case(case):
         hs = 16  # the pending-import-decoy mode mostly runs with full hashes (past hashes are only meaningful there)
     cfg = scen.gen_config(rng, max_lev=2, force=dict(nd=rng.randint(2, 4), hashsize=hs), allow_splits=False)
     opts = ["--test-fake-uuid"] if idx % 2 == 0 else []
+    # move mode, every other case: the first two data disks are REPLACED before the last sync (their fake UUIDs change from one
+    # non-empty value to another: the data lines are exchanged) and two same-size, same-stamp files come back from the
+    # backup with each other's inode number - an inode number of the old file-system identifies nothing on the new one
+    disk_replaced = idx % 16 == 2
+    if disk_replaced:
+        cfg["nlev"] = 2
+        cfg["content_on_data"] = False
     a, fs = scen.make(rng, cfg, "c19")
     V = res["violations"]
     hist = []
     try:
         A.populate(fs, rng, nfiles=rng.randint(6, 14), hostile=0.1, maxblocks=4)
+        if disk_replaced:
+            tn_ = rng.randint(1, 3 * a.bs)
+            tt_ = fs.clock.next()
+            fs.write(a.disks[0], b"twin-a", A.gen_bytes(rng, tn_, "rand"), mtime_ns=tt_)
+            fs.write(a.disks[0], b"twin-b", A.gen_bytes(rng, tn_, "rand"), mtime_ns=tt_)
         # some zero-nanosecond originals
         for k in range(2):
             fs.write(rng.choice(a.disks), b"zo%d/zname%d" % (k, k), A.gen_bytes(rng, rng.randint(1000, 4000), "rand"), mtime_ns=fs.clock.next(zero_nsec=True))
@@ -283,6 +295,21 @@ def run_case(case):
                     if scen._clear_path(fs, d, s2):
                         fs.rename(d, s, d, s2)
             res["counters"]["rewritten_in_place"] = res["counters"].get("rewritten_in_place", 0) + nrew
+            if disk_replaced:
+                pa, pb = fs.path(a.disks[0], b"twin-a"), fs.path(a.disks[0], b"twin-b")
+                ea, eb = fs.entries[a.disks[0]].get(b"twin-a"), fs.entries[a.disks[0]].get(b"twin-b")
+                if ea and eb and ea[0] == "file" and eb[0] == "file" and os.path.isfile(pa) and os.path.isfile(pb):
+                    tmp_ = pa + b".xchg"
+                    os.rename(pa, tmp_)
+                    os.rename(pb, pa)
+                    os.rename(tmp_, pb)
+                    for p_, e_ in ((pa, ea), (pb, eb)):
+                        with open(p_, "r+b") as fh:
+                            fh.write(e_[1])
+                        os.utime(p_, ns=(e_[2], e_[2]))
+                    a.disks[0], a.disks[1] = a.disks[1], a.disks[0]
+                    a.write_conf()
+                    res["counters"]["disks_replaced_with_inode_exchange"] = 1
             r = a.cmd("sync", "-E", "-Z", *opts, variant=variant)
             hist.append(("sync", r.rc))
             c = a.load_content()
